@@ -13,6 +13,8 @@ VARIABLES pn, sn, ind
 vars == <<pn, sn, ind>>
 Init == \/ pn \in Positions /\ sn \in Shapes /\ ind \in Indirections /\ ValidMember(pn, ind)
         \/ pn = "arity" /\ sn \in ArityNames /\ ind = "direct"            \* the Arity family rides along
+        \/ pn = "recpair" /\ ind = "direct"                                 \* and the RecPair family
+           /\ sn \in RecPairHosts \X RecPairBinders \X RecPairKinds \X RecPairBinders \X RecPairKinds
 Next == UNCHANGED vars
 
 PrintCase ==
